@@ -466,16 +466,16 @@ def check_C16(tier, seed):
         return {"src": "cmp.cpp", "cc": cc, "flags": ["-std=" + std] + SAN, "args": ["--type", typ], "name": "%s/%s/%s" % (cc, std, typ),
                 "config_class": "%s/%s" % (std, typ), "compile_failure_is_violation": True}
     if tier == "quick":
-        for typ in ("int", "lteq", "double"):
+        for typ in ("int", "lteq", "double", "nan"):
             jobs.append(job("g++", "c++17", typ))
-        for typ in ("int", "lteq", "ship", "partial"):
+        for typ in ("int", "lteq", "ship", "partial", "nan"):
             jobs.append(job("g++", "c++20", typ))
     else:
         for std in ("c++11", "c++14", "c++17", "c++20", "c++23"):
-            for typ in ("int", "lteq", "double") + (("ship", "partial") if std in ("c++20", "c++23") else ()):
+            for typ in ("int", "lteq", "double", "nan") + (("ship", "partial") if std in ("c++20", "c++23") else ()):
                 jobs.append(job("g++", std, typ))
         for std in ("c++11", "c++14", "c++17", "c++20"):
-            for typ in ("int", "lteq", "double") + (("ship", "partial") if std == "c++20" else ()):
+            for typ in ("int", "lteq", "double", "nan") + (("ship", "partial") if std == "c++20" else ()):
                 jobs.append(job("clang++", std, typ))
     run_simple_engines(rp, "C16", "cmp", jobs)
     return rp.finish()
